@@ -278,7 +278,7 @@ def child_python(prog: str, args=(), flags=(), env_extra=None, timeout=180):
     import subprocess
     import sys
 
-    env = {"PATH": "/usr/bin:/bin", "PYTHONDONTWRITEBYTECODE": "1", "PYTHONHASHSEED": "0", "LC_ALL": "C.UTF-8"}
+    env = {"PATH": "/usr/bin:/bin", "PYTHONDONTWRITEBYTECODE": "1", "PYTHONHASHSEED": "0", "LC_ALL": "C.UTF-8", "VERIF_REPO": REPO}
     env.update(env_extra or {})
     r = subprocess.run([sys.executable, "-B", *flags, "-c", "import sys; sys.path.insert(0, sys.argv[1])\n" + prog, REPO, *args], env=env, capture_output=True, timeout=timeout)
     if r.returncode != 0:
